@@ -30,6 +30,9 @@ func c05Gen(r *driver.Rand, thorough bool) *driver.Plan {
 	if stage == "Fold" && r.Chance(1, 3) {
 		p.Monoid = driver.Pick(r, monoidNames...)
 	}
+	if r.Chance(1, 4) {
+		p.Inputs[0] = genValues(r, n) // zeros, negatives, repeats
+	}
 	genSched(r, p)
 	genEnvPaces(r, p, 1, 3)
 	return p
